@@ -389,8 +389,84 @@ func runC08(r *Report) {
 			r.Ob("R-C08-3", pos, ok, "the keep-alive writes the client index also when it is missing (edge `Get(clientKey) == ErrKeyNotFound` reaches the index write), not only when it still names this connection", "RefreshConnection", "keepalive-recreates-missing-index")
 		}
 		// runtime-state refresh
-		okRT := len(Calls(hb, false, "EnsureClientOnline", "TouchClient")) > 0
+		okRT := false
+		for _, g := range samePkgReach(hb, 2) { // the refresh may sit in a helper of the handler
+			if len(Calls(g, false, "EnsureClientOnline", "TouchClient")) > 0 {
+				okRT = true
+			}
+		}
 		r.Ob("R-C08-3", hb.Pos(), okRT, "the heartbeat handler refreshes the client's runtime (online) state", "handleHeartbeat", "keepalive:runtime-state")
+		// the two refreshes are independent: a failure of the runtime-state refresh must not skip the
+		// refresh of the cross-node record (the record then expires under a live, heart-beating client)
+		for _, g := range samePkgReach(hb, 2) {
+			ens := Calls(g, false, "EnsureClientOnline", "TouchClient")
+			refs := Calls(g, false, "RefreshConnection")
+			if len(ens) == 0 || len(refs) == 0 {
+				continue
+			}
+			isRef := func(x ssa.Instruction) bool {
+				ci, ok := x.(ssa.CallInstruction)
+				return ok && CalleeOf(ci).Name == "RefreshConnection"
+			}
+			pruneStore := pruneNilComponent("connStateStore")
+			for _, e := range ens {
+				if !CanReach(e.Block(), refs[0].Block()) {
+					continue // the record is refreshed first
+				}
+				var starts []*ssa.BasicBlock
+				for _, b := range g.Blocks {
+					if ErrFailed(b, e) {
+						dominated := false
+						for _, o := range starts {
+							if o.Dominates(b) {
+								dominated = true
+							}
+						}
+						if !dominated {
+							starts = append(starts, b)
+						}
+					}
+				}
+				skipped := false
+				for _, st := range starts {
+					hits := WalkFrom(st, nil, func(x ssa.Instruction) int {
+						if isRef(x) {
+							return Stop
+						}
+						if _, ok := x.(*ssa.Return); ok {
+							return Hit
+						}
+						return Cont
+					}, func(b *ssa.BasicBlock, succ int) bool {
+						if !pruneStore(b, succ) {
+							return false
+						}
+						// an edge that contradicts what is known where the first refresh was made
+						// (`ClientID > 0` tested again) cannot be taken
+						if iff, ok := b.Instrs[len(b.Instrs)-1].(*ssa.If); ok {
+							c, pol := normCond(iff.Cond, succ == 0)
+							for _, fe := range Facts(e.Block()) {
+								if sameCond(fe.Cond, c) && fe.Pol != pol {
+									return false
+								}
+							}
+						}
+						// the unauthenticated side of an IsAuthenticated() test needs no refresh
+						if iff, ok := b.Instrs[len(b.Instrs)-1].(*ssa.If); ok {
+							c, pol := normCond(iff.Cond, succ == 0)
+							if cc, isC := c.(*ssa.Call); isC && CalleeOf(cc).Name == "IsAuthenticated" && !pol {
+								return false
+							}
+						}
+						return true
+					})
+					if len(hits) > 0 {
+						skipped = true
+					}
+				}
+				r.Ob("R-C08-3", CallPos(e), !skipped, "a failed runtime-state refresh ("+CalleeOf(e).Name+") still reaches the refresh of the cross-node record", r.P.FuncName(g), "keepalive:refresh-independent")
+			}
+		}
 	}
 
 	// ---- R-C08-1 placement ---------------------------------------------------------
